@@ -27,8 +27,8 @@ theorem sha256_streaming_conforms (chunks : List Bytes) (hlen : 8 * chunks.flatt
     length counter with overflow test, the two padding cases) = the Merkle–Damgård construction of FIPS 180-4
     over the concatenation of the chunks, for every parameter set with room for the length field, every
     chunking and every length for which the AddLength test of the implementation stays silent (`Safe`: below 2^64 bits
-    for sha224-256.c; below 2^96 bits for sha384-512.c as compiled, whose test `Length[3] == 0 && Length[2] == 0 &&
-    Length[1] == 0 && Length[0] < 8` also fires at multiples of 2^96 bits) -/
+    for sha224-256.c; below 2^128 bits for sha384-512.c, whose test since 91cb094 is the RFC 6234 one: `Length[3] < length &&
+    Length[2] == 0 && Length[1] == 0 && Length[0] == 0`) -/
 theorem sha_streaming_generic {W : Type} (P : ShaStream.Params W) (hlb : P.lenBytes + 1 ≤ P.blockSize)
     (chunks : List Bytes) (hlen : Relic.Lemmas.ShaStream.Safe P chunks.flatten.length) :
     ShaStream.run P chunks =
@@ -40,21 +40,28 @@ theorem sha224_streaming_conforms (chunks : List Bytes) (hlen : 8 * chunks.flatt
     ShaStream.run ShaStream.sha224P chunks = some (Spec.Sha256.sha224 chunks.flatten) :=
   Relic.Lemmas.ShaStream.sha224_streaming chunks hlen
 
-/-- streaming SHA-384 (128-byte blocks, 128-bit length) = FIPS 180-4 for every chunking; the bound is the first length
-    at which the implementation's own counter test fires (2^96 bits, see `sha512_refuses_at_2_96`) -/
-theorem sha384_streaming_conforms (chunks : List Bytes) (hlen : 8 * chunks.flatten.length < 2 ^ 96) :
+/-- streaming SHA-384 (128-byte blocks, 128-bit length) = FIPS 180-4 for every chunking and every message FIPS 180-4 admits
+    (below 2^128 bits) -/
+theorem sha384_streaming_conforms (chunks : List Bytes) (hlen : 8 * chunks.flatten.length < 2 ^ 128) :
     ShaStream.run ShaStream.sha384P chunks = some (Spec.Sha512.sha384 chunks.flatten) :=
   Relic.Lemmas.ShaStream.sha384_streaming chunks hlen
 
 /-- streaming SHA-512 = FIPS 180-4 for every chunking -/
-theorem sha512_streaming_conforms (chunks : List Bytes) (hlen : 8 * chunks.flatten.length < 2 ^ 96) :
+theorem sha512_streaming_conforms (chunks : List Bytes) (hlen : 8 * chunks.flatten.length < 2 ^ 128) :
     ShaStream.run ShaStream.sha512P chunks = some (Spec.Sha512.sha512 chunks.flatten) :=
   Relic.Lemmas.ShaStream.sha512_streaming chunks hlen
 
-/-- the implementation (as compiled) refuses a message whose bit length reaches 2^96 although the 128-bit counter of
-    FIPS 180-4 has not overflowed: the counter test of SHA384_512AddLength is `true` at 2^96 -/
-theorem sha512_refuses_at_2_96 : ShaStream.corrupt128w (2 ^ 96) = true ∧ ShaStream.corrupt128w (2 ^ 96 - 8) = false ∧
-    ShaStream.corrupt64 0 = true := by decide
+/-- the counter test of SHA384_512AddLength (four 32-bit words, RFC 6234 form) fires exactly at a true wrap of the 128-bit counter:
+    on an updated counter value l < 2^128 it is true iff l < 8, i.e. iff adding 8 carried out of bit 127 -/
+theorem sha512_refuses_exactly_at_wrap (l : Nat) (hl : l < 2 ^ 128) : ShaStream.corrupt128w l = true ↔ l < 8 :=
+  Relic.Lemmas.ShaStream.corrupt128w_iff l hl
+
+/-- the refusal at 2^128 bits stays (the counter 2^128 − 8 plus one byte wraps to 0), nothing fires at 2^96 or 2^64 any more;
+    the 64-bit counter of sha224-256.c refuses at 2^64 -/
+theorem sha512_refuses_at_2_128 : ShaStream.corrupt128w ((2 ^ 128 - 8 + 8) % 2 ^ 128) = true ∧
+    ShaStream.corrupt128w (2 ^ 128 - 8) = false ∧ ShaStream.corrupt128w (2 ^ 96) = false ∧
+    ShaStream.corrupt128w (7 * 2 ^ 96) = false ∧ ShaStream.corrupt128w (2 ^ 64) = false ∧
+    ShaStream.corrupt64 ((2 ^ 64 - 8 + 8) % 2 ^ 64) = true := by decide
 
 /-- the parametric model instantiated at SHA-256 agrees with the dedicated SHA-256 model of round 1 -/
 theorem sha256_streaming_generic_conforms (chunks : List Bytes) (hlen : 8 * chunks.flatten.length < 2 ^ 64) :
@@ -122,7 +129,7 @@ theorem xmd_sha224_conforms (n : Nat) (inp dst : Bytes) (hlen : 8 * (inp.length 
   have hcs' : cs.flatten.length ≤ 64 + inp.length + 28 + 259 := hcs
   exact Relic.Lemmas.ShaStream.sha224_streaming cs (by omega)
 
-theorem xmd_sha384_conforms (n : Nat) (inp dst : Bytes) (hlen : 8 * (inp.length + 1000) < 2 ^ 96) :
+theorem xmd_sha384_conforms (n : Nat) (inp dst : Bytes) (hlen : 8 * (inp.length + 1000) < 2 ^ 128) :
     Md.mdXmd Md.sha384Stream n inp dst
       = Mac.expandMessageXmd { h := Spec.Sha512.sha384, outLen := 48, blockLen := 128 } inp dst n := by
   apply mdXmd_eq Md.sha384Stream { h := Spec.Sha512.sha384, outLen := 48, blockLen := 128 } n inp dst
@@ -131,7 +138,7 @@ theorem xmd_sha384_conforms (n : Nat) (inp dst : Bytes) (hlen : 8 * (inp.length 
   have hcs' : cs.flatten.length ≤ 128 + inp.length + 48 + 259 := hcs
   exact Relic.Lemmas.ShaStream.sha384_streaming cs (by omega)
 
-theorem xmd_sha512_conforms (n : Nat) (inp dst : Bytes) (hlen : 8 * (inp.length + 1000) < 2 ^ 96) :
+theorem xmd_sha512_conforms (n : Nat) (inp dst : Bytes) (hlen : 8 * (inp.length + 1000) < 2 ^ 128) :
     Md.mdXmd Md.sha512Stream n inp dst
       = Mac.expandMessageXmd { h := Spec.Sha512.sha512, outLen := 64, blockLen := 128 } inp dst n := by
   apply mdXmd_eq Md.sha512Stream { h := Spec.Sha512.sha512, outLen := 64, blockLen := 128 } n inp dst
